@@ -22,6 +22,8 @@ def _float_expr(node, ShapeError):
 
 def _decimal_arg(node, ShapeError):
     """Decimal("...") -> str ; Decimal(<int>) -> int ; Decimal(<float>) -> float"""
+    from gen_common import resolve
+    node = resolve(node)
     if isinstance(node, ast.Call) and getattr(node.func, "id", None) == "Decimal" and len(node.args) == 1 \
             and isinstance(node.args[0], ast.Constant):
         return node.args[0].value
